@@ -511,8 +511,8 @@ ALLOCATORS = [
     ("pptx.package", "Package.next_media_partname", ["self.iter_parts()"], []),
     ("pptx.parts.presentation", "PresentationPart._next_slide_partname", ["get_or_add_sldIdLst()", ("len-of", "get_or_add_sldIdLst()")], []),
     ("pptx.oxml.slide", "CT_TimeNodeList._next_cTn_id", ["'/p:sld/p:timing//p:cTn/@id'"], []),
-    ("pptx.oxml.chart.chart", "CT_PlotArea.next_idx", ["self.sers"], []),
-    ("pptx.oxml.chart.chart", "CT_PlotArea.next_order", ["self.sers"], []),
+    ("pptx.oxml.chart.chart", "CT_PlotArea.next_idx", [("any", ["self.sers", "self.iter_sers()", "./*/c:ser", "//c:ser"])], ["self.last_ser", "xCharts[-1]"]),
+    ("pptx.oxml.chart.chart", "CT_PlotArea.next_order", [("any", ["self.sers", "self.iter_sers()", "./*/c:ser", "//c:ser"])], ["self.last_ser", "xCharts[-1]"]),
     ("pptx.shapes.shapetree", "_BaseShapes._next_ph_name", ["'//p:cNvPr/@name'"], ["'.//p:cNvPr", "'./p:"]),
 ]
 
@@ -585,6 +585,8 @@ def run(ctx):
         def _has(m):
             if isinstance(m, str):
                 return m in src
+            if m[0] == "any":     # one of several ways to name the whole population
+                return any(x in src for x in m[1])
             # ("len-of", suffix): some len(X) where X, with single-assignment locals substituted, is a call ending in suffix
             from sa import paths as P_
             for g in reach:
